@@ -321,11 +321,12 @@ def generic_ext_method(eng, ref, attr, args, kwargs, fr, node):
     spec = getattr(k, 'methods', {}).get(attr)
     if spec is None:
         raise Unsupported('%s.%s is not modelled' % (ref.ty[1], attr))
+    if spec.get('trace'):
+        # the call is an event whether or not it ends by raising
+        eng.trace_event(spec['trace'], ref, attr, list(args) + [kwargs.get(k_) for k_ in sorted(kwargs)])
     for exc in spec.get('raises', []):
         if eng.branch(z3.FreshConst(z3.BoolSort(), 'raises_%s' % attr)):
             raise PyRaise(exc, msg='%s.%s raised' % (ref.ty[1], attr))
-    if spec.get('trace'):
-        eng.trace_event(spec['trace'], ref, attr, list(args) + [kwargs.get(k_) for k_ in sorted(kwargs)])
     if spec.get('reentrant'):
         H.external_call(eng, '%s.%s' % (ref.ty[1], attr))
     ret = spec.get('ret')
